@@ -67,6 +67,12 @@ def cases(ctx: Ctx):
     gl = [rec(["H", "H"], ["H2"], 1, a=6.59e-11), rec(["GRAIN0", "e-"], ["GRAIN-"], 20, a=1.0), rec(["C+", "GRAIN-"], ["C", "GRAIN0"], 6, a=1.0),
           rec(["CO"], ["GCO"], 7, a=1.0), rec(["GCO"], ["CO"], 8, a=1.0)]
     (d / "grain.leeds").write_text("\n".join(encoders.leeds(dict(x, tmin=5.0, tmax=41000.0)) for x in gl) + "\n")
+    # surface photoreactions (Leeds type 12) of the three self-shielding molecules' ices: the rate names the gas-phase species' index macro
+    # and column density
+    sp = [rec(["H", "H"], ["H2"], 1, a=6.59e-11), rec(["CO"], ["GCO"], 7, a=1.0), rec(["H2"], ["GH2"], 7, a=1.0), rec(["N2"], ["GN2"], 7, a=1.0),
+          rec(["GCO"], ["GC", "GO"], 12, a=2.0e-10, c=2.5), rec(["GH2"], ["GH", "GH"], 12, a=1.0e-10, c=2.0), rec(["GN2"], ["GN", "GN"], 12, a=3.0e-10, c=3.0),
+          rec(["GC"], ["C"], 8, a=1.0), rec(["GO"], ["O"], 8, a=1.0), rec(["GH"], ["H"], 8, a=1.0), rec(["GN"], ["N"], 8, a=1.0)]
+    (d / "surfphot.leeds").write_text("\n".join(encoders.leeds(dict(x, tmin=5.0, tmax=41000.0, idx=i_ + 1)) for i_, x in enumerate(sp)) + "\n")
     (d / "n.naunet").write_text("\n".join(encoders.native(x) for x in [rec(["H", "H"], ["H2"], 100), rec(["H2", "CR"], ["H", "H"], 101), rec(["CO", "PHOTON"], ["C", "O"], 102, c=2.5)]) + "\n")
     # grain charging in the native format, to go with a UCLCHEM gas-grain file: grain SPECIES under the rr07 models
     # (written as ordinary two-body reactions: the rr07 models implement no recombination / electron-capture law)
@@ -107,6 +113,9 @@ def cases(ctx: Ctx):
                                                       grain_model="rr07"), "odeint", "rosenbrock4"),
         ("leeds grains+hh93, grain reactions removed after the dust was inspected", dict(filelist=str(d / "grain.leeds"), fileformats="leeds", grain_model="hh93",
                                                                                           _prep=drop_grain_reactions), "cvode", "sparse"),
+        ("leeds surface photoreactions of CO, H2, N2 ices + hh93", dict(filelist=str(d / "surfphot.leeds"), fileformats="leeds", grain_model="hh93"), "cvode", "dense"),
+        ("leeds surface photoreactions of CO, H2, N2 ices + hh93i, tables", dict(filelist=str(d / "surfphot.leeds"), fileformats="leeds", grain_model="hh93i",
+                                                                              shielding={"H2": "L96Table", "CO": "V09Table", "N2": "L13Table"}), "cvode", "sparse"),
         ("kida", dict(filelist=str(data / "minimal.kida"), fileformats="kida"), "cvode", "dense"),
         ("umist", dict(filelist=str(data / "minimal.umist"), fileformats="umist"), "cvode", "sparse"),
         ("krome+cooling", dict(filelist=str(data / "primordial.krome"), fileformats="krome", cooling=["CIC_HI", "RC_HII"]), "odeint", "rosenbrock4"),
@@ -271,13 +280,13 @@ def main(ctx: Ctx) -> int:
             p = subprocess.run(["g++", "-std=c++11", "-fsyntax-only", "-I", str(SHIM / "include"), "-I", str(out / "include"), str(f)],
                                capture_output=True, text=True, timeout=600)
             for line in p.stderr.splitlines():
-                m = re.search(r"error: [‘'`](\w+)[’'] was not declared", line)
+                m = re.search(r"error: [‘'`](\w+)[’'] (?:was not declared|has not been declared|does not name a type)", line)
                 if m:
                     und.add(m.group(1))
                 m = re.search(r"(?:error|warning): (?:redefinition|redeclaration) of [‘'`]([^’']+)[’']|warning: \"(\w+)\" redefined", line)
                 if m:
                     red.add(m.group(1) or m.group(2))
-                elif "error:" in line and "not declared" not in line:
+                elif "error:" in line and "not declared" not in line and "not been declared" not in line and "does not name a type" not in line:
                     other.add(re.search(r"error: (.*)", line).group(1)[:80])
         return ti, sorted(und), sorted(red), sorted(other)
     with ThreadPoolExecutor(12) as ex:
